@@ -185,3 +185,16 @@ package redisemu
 //@ endcallback
 //@ modifies *
 //@ ensures [C03,C13] negative.refused: old(istype(args["count"], int64) && unbox(args["count"], int64) < 0) ==> istype(output.data, respErrorString)
+
+// C03 / C06: LMPOP refuses a numkeys that is not the number of keys given and a
+// COUNT below 1 before anything is popped
+//@ func fnLMPop
+//@ prop C03 C06
+//@ safetyprop C13
+//@ requires ctx != nil && ctx.dsc != nil && dscOK(ctx.dsc)
+//@ requires [C08,C16] unlocked: lockMode(ctx.dsc)
+//@ requires !mutated && !bumped && !removedKey
+//@ modifies *
+//@ loop 1 invariant len(strKeyNames) == ri && !mutated && !bumped && !removedKey && lockMode(ctx.dsc) && dscOK(ctx.dsc)
+//@ ensures internal [C03,C06] numkeys.mismatch: int64(len(keyNames)) != numkeys ==> output.data == rstrSyntaxError && !mutated
+//@ ensures internal [C03,C06] count.low: int64(len(keyNames)) == numkeys && hasCount && count < 1 ==> output.data == rstrSyntaxError && !mutated
